@@ -335,6 +335,24 @@ theorem parseLoop_mono_le {w : World} {n m : Nat} {s : St} {r} (h : parseLoop w 
   | refl => exact h
   | step _ ih => exact parseLoop_mono _ s r ih
 
+theorem loadIfAny_mono_le {w : World} {n m : Nat} {s : St} {r} (h : loadIfAny w n s = some r) (hle : n ≤ m) :
+    loadIfAny w m s = some r := by
+  induction hle with
+  | refl => exact h
+  | step _ ih => exact loadIfAny_mono _ s r ih
+
+theorem fromPath_mono_le {w : World} {n m : Nat} {items : List Item} {r} (h : fromPath w n items = some r) (hle : n ≤ m) :
+    fromPath w m items = some r := by
+  unfold fromPath at h ⊢
+  cases hl : loadIfAny w n (initSt items) with
+  | none => rw [hl] at h; simp at h
+  | some r₁ =>
+    rw [hl] at h
+    rw [loadIfAny_mono_le hl hle]
+    cases r₁ with
+    | error e => exact h
+    | ok s₁ => exact parseLoop_mono_le h hle
+
 /-! ### the parse loop: the number of files is bounded -/
 
 theorem pend_mono (w : World) (k : List String) (p : String) (U : List String) : pend w (k ++ [p]) U ≤ pend w k U := by
@@ -545,6 +563,52 @@ theorem fromPath_terminates {w : World} {U : List String} (hU : YmlClosed w U) (
     exact parseLoop_terminates hU hC n s₁ e₁.inv e₁.closed hall₁ (by omega) (by have := e₁.total; omega)
 
 
+/-- `from_content` ends too -/
+theorem fromContent_terminates {w : World} {U : List String} (hU : YmlClosed w U) (hC : CoClosed w U) (yml : List String) (main : Nat)
+    (hy : yml ⊆ U) (hf : ∀ ips, w.parse main = some ips → ips ⊆ U)
+    (n : Nat) (hn : 1 + pend w [] U + U.length + 4 ≤ n) :
+    ∃ r, fromContent w n yml main = some r ∧ ∀ s', r = .ok s' → Done U s' := by
+  unfold fromContent
+  cases hp : w.parse main with
+  | none => exact ⟨_, rfl, by intro s' h; cases h⟩
+  | some ips =>
+    simp only
+    have hi : Inv U (contentSt yml ips main) :=
+      ⟨joinPaths_nodup _ (joinPaths_nodup _ List.nodup_nil), joinPaths_subset (joinPaths_subset (by simp) hy) (hf ips hp),
+       by simp [St.keys, contentSt], by simp [St.keys, contentSt]⟩
+    have hc : FilesClosed w U (contentSt yml ips main) := by
+      intro f hfm ips' hps'
+      simp [contentSt] at hfm; subst hfm
+      exact hf ips' hps'
+    have htot : total w U (contentSt yml ips main) = 1 + pend w [] U := by simp [total, contentSt, St.keys]
+    obtain ⟨r, hr, hrs⟩ := loadIfAny_terminates hU hC _ hi hc n (by omega)
+    rw [hr]
+    cases r with
+    | error e => exact ⟨_, rfl, by intro s' h; cases h⟩
+    | ok s₁ =>
+      simp only
+      obtain ⟨e₁, hall₁⟩ := hrs s₁ rfl
+      obtain ⟨t₁, ht₁⟩ := e₁.files
+      have hp₁ : s₁.parsed = 1 := e₁.parsed
+      have hl₁ : s₁.parsed ≤ s₁.files.length := by rw [hp₁, ht₁]; simp [contentSt]
+      exact parseLoop_terminates hU hC n s₁ e₁.inv e₁.closed hall₁ hl₁ (by have := e₁.total; omega)
+
+theorem fromContent_mono_le {w : World} {n m : Nat} {yml : List String} {main : Nat} {r}
+    (h : fromContent w n yml main = some r) (hle : n ≤ m) : fromContent w m yml main = some r := by
+  unfold fromContent at h ⊢
+  cases hp : w.parse main with
+  | none => rw [hp] at h; exact h
+  | some ips =>
+    rw [hp] at h; simp only at h ⊢
+    cases hl : loadIfAny w n (contentSt yml ips main) with
+    | none => rw [hl] at h; simp at h
+    | some r₁ =>
+      rw [hl] at h
+      rw [loadIfAny_mono_le hl hle]
+      cases r₁ with
+      | error e => exact h
+      | ok s₁ => exact parseLoop_mono_le h hle
+
 /-! ### the decidable form of the closure hypotheses (what the driver evaluates on the real tree) -/
 
 theorem closedItems_sound {w : World} {U : List String} {items : List Item} (h : closedItems w U items = true) :
@@ -573,6 +637,178 @@ theorem closedWorld_sound {w : World} {U : List String} {init : List Item} (h : 
     have := hU p hp
     rw [hr] at this
     exact (closedItems_sound this).2
+
+
+/-! ### what has been loaded is closed: the fix-point really is one -/
+
+/-- every imported path has brought in its `.yml` import paths and its `.co` files; every parsed file has contributed its imports -/
+structure Cl (w : World) (s : St) : Prop where
+  imp : ∀ p a, (p, a) ∈ s.imported → ∃ items, w.resolve p = some (a, items) ∧ ymlPaths items ⊆ s.importPaths ∧ coFiles items ⊆ s.files
+  par : ∀ i f, i < s.parsed → s.files[i]? = some f → ∀ ips, w.parse f = some ips → ips ⊆ s.importPaths
+  ple : s.parsed ≤ s.files.length
+
+/-- a step of the import loops: closedness kept, both collections only grow, nothing is parsed -/
+structure ClStep (w : World) (s s' : St) : Prop where
+  cl : Cl w s'
+  paths : s.importPaths ⊆ s'.importPaths
+  files : ∃ t, s'.files = s.files ++ t
+  parsed : s'.parsed = s.parsed
+
+theorem ClStep.refl {w : World} {s : St} (h : Cl w s) : ClStep w s s := ⟨h, fun _ h => h, ⟨[], by simp⟩, rfl⟩
+
+theorem ClStep.trans {w : World} {a b c : St} (h₁ : ClStep w a b) (h₂ : ClStep w b c) : ClStep w a c := by
+  obtain ⟨t₁, e₁⟩ := h₁.files
+  obtain ⟨t₂, e₂⟩ := h₂.files
+  exact ⟨h₂.cl, fun x hx => h₂.paths (h₁.paths hx), ⟨t₁ ++ t₂, by rw [e₂, e₁, List.append_assoc]⟩, h₂.parsed.trans h₁.parsed⟩
+
+theorem subset_joinPaths_left (d a : List String) : d ⊆ joinPaths d a := fun x hx => joinPaths_mem d a x (Or.inl hx)
+theorem subset_joinPaths_right (d a : List String) : a ⊆ joinPaths d a := fun x hx => joinPaths_mem d a x (Or.inr hx)
+
+theorem visit_cl {w : World} {s s' : St} {p : String} (hc : Cl w s) (hv : visit w s p = .ok s') : ClStep w s s' := by
+  unfold visit at hv
+  split at hv
+  · injection hv with hv; subst hv; exact ClStep.refl hc
+  · split at hv
+    · cases hv
+    · rename_i actual items hr
+      injection hv with hv; subst hv
+      refine ⟨⟨?_, ?_, ?_⟩, subset_joinPaths_left _ _, ⟨(loadPath items).2, rfl⟩, rfl⟩
+      · intro q a hq
+        simp only [List.mem_append, List.mem_singleton, Prod.mk.injEq] at hq
+        rcases hq with hq | ⟨rfl, rfl⟩
+        · obtain ⟨its, h₁, h₂, h₃⟩ := hc.imp q a hq
+          exact ⟨its, h₁, fun x hx => subset_joinPaths_left _ _ (h₂ hx), fun x hx => List.mem_append_left _ (h₃ hx)⟩
+        · refine ⟨items, hr, ?_, ?_⟩
+          · intro x hx
+            apply subset_joinPaths_right
+            show x ∈ joinPaths [] (ymlPaths items)
+            exact subset_joinPaths_right _ _ hx
+          · intro x hx; exact List.mem_append_right _ hx
+      · intro i f hi hf ips hps
+        have hlt : i < s.files.length := Nat.lt_of_lt_of_le hi hc.ple
+        have hf' : s.files[i]? = some f := by
+          rw [← hf]; exact (List.getElem?_append_left hlt).symm
+        exact fun x hx => subset_joinPaths_left _ _ (hc.par i f hi hf' ips hps hx)
+      · show s.parsed ≤ (s.files ++ (loadPath items).2).length
+        rw [List.length_append]; have := hc.ple; omega
+
+theorem forLoop_cl {w : World} : ∀ (n i : Nat) (s s' : St), Cl w s → forLoop w n i s = some (.ok s') → ClStep w s s' := by
+  intro n
+  induction n with
+  | zero => intro i s s' _ h; simp [forLoop] at h
+  | succ n ih =>
+    intro i s s' hc h
+    unfold forLoop at h
+    cases hg : s.importPaths[i]? with
+    | none => rw [hg] at h; simp at h; subst h; exact ClStep.refl hc
+    | some p =>
+      rw [hg] at h; simp only at h
+      cases hv : visit w s p with
+      | error e => rw [hv] at h; simp at h
+      | ok s₁ =>
+        rw [hv] at h
+        have e₁ := visit_cl hc hv
+        exact e₁.trans (ih (i + 1) s₁ s' e₁.cl h)
+
+theorem whileLoop_cl {w : World} : ∀ (n : Nat) (s s' : St), Cl w s → whileLoop w n s = some (.ok s') → ClStep w s s' := by
+  intro n
+  induction n with
+  | zero => intro s s' _ h; simp [whileLoop] at h
+  | succ n ih =>
+    intro s s' hc h
+    unfold whileLoop at h
+    split at h
+    · simp at h; subst h; exact ClStep.refl hc
+    · cases hf : forLoop w n 0 s with
+      | none => rw [hf] at h; simp at h
+      | some r =>
+        rw [hf] at h
+        cases r with
+        | error e => simp at h
+        | ok s₁ =>
+          have e₁ := forLoop_cl n 0 s s₁ hc hf
+          exact e₁.trans (ih s₁ s' e₁.cl h)
+
+theorem loadIfAny_cl {w : World} (n : Nat) (s s' : St) (hc : Cl w s) (h : loadIfAny w n s = some (.ok s')) : ClStep w s s' := by
+  unfold loadIfAny at h
+  split at h
+  · simp at h; subst h; exact ClStep.refl hc
+  · exact whileLoop_cl n s s' hc h
+
+theorem parseLoop_cl {w : World} : ∀ (n : Nat) (s s' : St), Cl w s → parseLoop w n s = some (.ok s') →
+    Cl w s' ∧ s.importPaths ⊆ s'.importPaths ∧ s.files ⊆ s'.files := by
+  intro n
+  induction n with
+  | zero => intro s s' _ h; simp [parseLoop] at h
+  | succ n ih =>
+    intro s s' hc h
+    unfold parseLoop at h
+    split at h
+    · simp at h; subst h; exact ⟨hc, fun _ h => h, fun _ h => h⟩
+    · cases hg : s.files[s.parsed]? with
+      | none => rw [hg] at h; simp at h
+      | some f =>
+        rw [hg] at h; simp only at h
+        cases hp : w.parse f with
+        | none => rw [hp] at h; simp at h
+        | some ips =>
+          rw [hp] at h; simp only at h
+          have hlt : s.parsed < s.files.length := by
+            rcases Nat.lt_or_ge s.parsed s.files.length with h' | h'
+            · exact h'
+            · rw [List.getElem?_eq_none h'] at hg; cases hg
+          have hc₁ : Cl w { s with importPaths := joinPaths s.importPaths ips, parsed := s.parsed + 1 } := by
+            refine ⟨?_, ?_, hlt⟩
+            · intro q a hq
+              obtain ⟨its, h₁, h₂, h₃⟩ := hc.imp q a hq
+              exact ⟨its, h₁, fun x hx => subset_joinPaths_left _ _ (h₂ hx), h₃⟩
+            · intro i g hi hgi ips' hps'
+              rcases Nat.lt_or_ge i s.parsed with hlt' | hge
+              · exact fun x hx => subset_joinPaths_left _ _ (hc.par i g hlt' hgi ips' hps' hx)
+              · have hi' : i = s.parsed := by
+                  have : i < s.parsed + 1 := hi
+                  omega
+                subst hi'
+                have : g = f := by
+                  have hgi' : s.files[s.parsed]? = some g := hgi
+                  rw [hg] at hgi'; injection hgi' with e; exact e.symm
+                subst this
+                rw [hp] at hps'; injection hps' with e; subst e
+                exact subset_joinPaths_right _ _
+          cases hl : loadIfAny w n { s with importPaths := joinPaths s.importPaths ips, parsed := s.parsed + 1 } with
+          | none => rw [hl] at h; simp at h
+          | some r =>
+            rw [hl] at h
+            cases r with
+            | error e => simp at h
+            | ok s₂ =>
+              simp only at h
+              have e₂ := loadIfAny_cl n _ s₂ hc₁ hl
+              obtain ⟨c₃, p₃, f₃⟩ := ih s₂ s' e₂.cl h
+              obtain ⟨t, ht⟩ := e₂.files
+              refine ⟨c₃, fun x hx => p₃ (e₂.paths (subset_joinPaths_left _ _ hx)), fun x hx => f₃ ?_⟩
+              rw [ht]; exact List.mem_append_left _ hx
+
+theorem initSt_cl (w : World) (items : List Item) : Cl w (initSt items) :=
+  ⟨by intro p a h; simp [initSt] at h, by intro i f h; simp [initSt] at h, by simp [initSt]⟩
+
+theorem fromPath_cl {w : World} (n : Nat) (items : List Item) (s' : St) (h : fromPath w n items = some (.ok s')) :
+    Cl w s' ∧ ymlPaths items ⊆ s'.importPaths ∧ coFiles items ⊆ s'.files := by
+  unfold fromPath at h
+  cases hl : loadIfAny w n (initSt items) with
+  | none => rw [hl] at h; simp at h
+  | some r =>
+    rw [hl] at h
+    cases r with
+    | error e => simp at h
+    | ok s₁ =>
+      simp only at h
+      have e₁ := loadIfAny_cl n _ s₁ (initSt_cl w items) hl
+      obtain ⟨c₂, p₂, f₂⟩ := parseLoop_cl n s₁ s' e₁.cl h
+      obtain ⟨t, ht⟩ := e₁.files
+      refine ⟨c₂, fun x hx => p₂ (e₁.paths ?_), fun x hx => f₂ ?_⟩
+      · show x ∈ joinPaths [] (ymlPaths items); exact subset_joinPaths_right _ _ hx
+      · rw [ht]; exact List.mem_append_left _ (by simpa [initSt, loadPath] using hx)
 
 /-! ### a repeated import path: the loop cannot return -/
 
